@@ -479,6 +479,51 @@ def fold_policy_for_version(ctx, m):
     ctx.count('versions_folded_through_set_protocol_version', n)
     return (True, 'folded for %d supported versions and an unsupported one' % n)
 
+
+def _ancestors_of(n):
+    p = getattr(n, '_parent', None)
+    while p is not None:
+        yield p
+        p = getattr(p, '_parent', None)
+
+
+def check_error_response_versions(ctx, rule='C16.R7'):
+    """Error responses built by the session are addressed with the version of the request they answer."""
+    from ..dataflow import resolve
+    stree = ctx.src.tree(SESSION)
+    sc = get_class(stree, 'KmipSession')
+    loop = get_method(sc, '_handle_message_loop')
+    g = CFG(loop)
+    rd = ReachingDefs(g)
+    reads = [(n, c) for n, c in call_nodes(g, '.read') if isinstance(c.func.value, ast.Name) and any(isinstance(v, ast.Call) and (call_name(v) or '').endswith('RequestMessage') for v in rd.values(n, c.func.value.id))]
+    ctx.need(len(reads) == 1, 'unrecognised construct: expected one request.read(...) in _handle_message_loop')
+    rn, rc = reads[0]
+    reqv = rc.func.value.id
+    n = 0
+    for bn, bc in call_nodes(g, 'self._engine.build_error_response'):
+        n += 1
+        site = '%s:%s KmipSession._handle_message_loop' % (SESSION, bc.lineno)
+        v = bc.args[0] if bc.args else next((k.value for k in bc.keywords if k.arg == 'version'), None)
+        # not decoded: the call sits in an except arm of the try that holds request.read (the request may be missing or half read there);
+        # everywhere else the request was decoded - or, after the join, only a response that is larger than the client allows is replaced,
+        # which an undecodable request never gets
+        in_parse_handler = any(h is h2 for tr in rn.tries for h in tr.handlers for h2 in [x_ for x_ in _ancestors_of(bc)] )
+        decoded = not in_parse_handler
+        e, at = resolve(rd, bn, v) if v is not None else (None, bn)
+        txt = U(e) if e is not None else None
+        if decoded:
+            ok = txt == '%s.request_header.protocol_version' % reqv
+            if not ok and isinstance(e, ast.Attribute) and e.attr == 'protocol_version':
+                b2, _ = resolve(rd, at, e.value)
+                ok = U(b2) == '%s.request_header' % reqv
+            ctx.check(ok, rule, 'KmipSession._handle_message_loop|error-response-version after decoding', site, 'an error that answers a decoded request carries the request header version',
+                      'the error response for a request that was decoded is built with %s instead of the version in the request header: a client speaking another version than that gets a response header it did not ask for' % txt)
+        else:
+            ok = txt in ('contents.ProtocolVersion(1, 0)', 'self._engine.default_protocol_version') or (isinstance(e, ast.Call) and (call_name(e) or '').endswith('ProtocolVersion') and all(isinstance(a_, ast.Constant) for a_ in e.args))
+            ctx.check(ok, rule, 'KmipSession._handle_message_loop|error-response-version before decoding', site, 'an error raised before / while decoding is answered under a fixed version',
+                      'the error response for a request that may not have been decoded is built with %s (the header of such a request may be missing or half read)' % txt)
+    ctx.count('session_error_responses', n, 4)
+
 def run(ctx):
     src = ctx.src
     m = EngineModel(src)
@@ -822,6 +867,7 @@ def run(ctx):
                       'KmipSession._handle_message_loop|version-updated-with-result', es,
                       'the encoding version is updated in the same block as the engine call', 'the encoding version is not updated right after process_request')
     ctx.count('response_encode_sites', n_enc, 2)
+    check_error_response_versions(ctx, 'C16.R7')
 
     # ---------------- R8 attributes
     ga = m.method('_get_attributes_from_managed_object')
